@@ -235,8 +235,10 @@ pub fn c02(c: &mut Ctx, b: &Budget) {
                 }
             }
         }
-        // whole-envelope encrypt: digest of the wrapped original
-        if i % 5 == 0 {
+        // whole-envelope encrypt: digest of the wrapped original - also when the original is itself a bare wrapper
+        for input in [cur.clone(), c.assign(&format!("wrap {}", cur)), { let w = c.assign(&format!("wrap {}", cur)); c.assign(&format!("wrap {}", w)) }] {
+            if i % 5 != 0 && input == cur { continue; }
+            let cur = input;
             if let Some(orig) = c.env(&cur) {
                 let n = hex::encode(c.rng.bytes(12));
                 let enc = c.assign(&format!("encrypt {} {} {}", cur, KEY1, n));
@@ -325,6 +327,15 @@ pub fn c05(c: &mut Ctx, b: &Budget) {
         roundtrip(c, &cur);
         c.end();
     }
+    // decoding must not depend on what was decoded before: a long run of rejected inputs (nested, so that the error passes through
+    // several decoder frames), then valid envelopes again
+    {
+        c.begin("roundtrip-after-rejections");
+        let deep = |n: usize| -> String { let mut v: Vec<u8> = vec![0xd8, 0xc8]; for _ in 0..n { v.extend_from_slice(&[0xd8, 0xc8]); } v.extend_from_slice(&[0xd8, 0x63, 0x01]); hex::encode(v) };   // wrappers around an unknown tag
+        for k in 0..(if b.thorough { 2400 } else { 700 }) { let _ = c.assign(&format!("decode {}", deep(1 + k % 4))); }
+        for _ in 0..3 { let cur = gen_env(c, &small_cfg(), 3); roundtrip(c, &cur); }
+        c.end();
+    }
     // envelopes reached through operation histories (the compositions no constructor makes:
     // obscured copies of present assertions, replaced subjects, removed assertions, decrypted / uncompressed results)
     let small = GenCfg::default();
@@ -365,6 +376,7 @@ pub(crate) fn roundtrip(c: &mut Ctx, cur: &str) {
 }
 
 fn c_val(c: &Ctx, r: &str) -> String { c.val(r).show() }
+fn small_cfg() -> GenCfg { GenCfg::default() }
 
 /// all permutations of 0..n
 fn permutations(n: usize) -> Vec<Vec<usize>> {
@@ -611,7 +623,8 @@ fn decode_case(c: &mut Ctx, family: &str, kind: &str, bytes: &[u8]) {
             let r2 = check_spec_digests(e);
             c.check("decoded-digests", r2.is_ok(), "decoded-digests", || r2.unwrap_err());
         }
-        _ => { c.count("decode:rejected"); if g.is_ok() { c.count("decode:rejected-grammatical"); } }
+        _ => { c.count("decode:rejected"); if g.is_ok() { c.count("decode:rejected-grammatical"); }
+               if family == "valid" { let shown = v.show(); c.check("own-encoding-accepted", false, "own-encoding-rejected", || format!("the library's own encoding {} is refused: {}", hx, shown)); } }
     }
     c.end();
 }
